@@ -1441,7 +1441,9 @@ def lame_parameters(
         if shear_modulus is None:
             if poissons_ratio is not None and youngs_modulus is not None:
                 first_parameter = (
-                    poissons_ratio * youngs_modulus / ((1 + poissons_ratio)(1 - 2 * poissons_ratio))
+                    poissons_ratio
+                    * youngs_modulus
+                    / ((1 + poissons_ratio) * (1 - 2 * poissons_ratio))
                 )
                 second_parameter = youngs_modulus / (2 * (1 + poissons_ratio))
         elif youngs_modulus is None:
@@ -1465,7 +1467,7 @@ def lame_parameters(
                 + 9 * first_parameter**2
                 + 2 * youngs_modulus * first_parameter
             )
-            second_parameter = youngs_modulus - 3 * first_parameter + r / 4
+            second_parameter = (youngs_modulus - 3 * first_parameter + r) / 4
     if first_parameter is None or second_parameter is None:
         raise NotImplementedError(
             "lame_parameters() deriving Lame parameters from: "
